@@ -188,7 +188,11 @@ CHECKS = {
               "configurations by user priority magnitude, then the non-default branch, then every other column (level_order); "
               "evalPt_mkCcAny / evalPt_mkCcXor — the default restructuring never changes what a rule means: cc.Any is true iff at "
               "least one, cc.Xor iff exactly one alternative is true, whatever the default (defaults enter the objective only, not "
-              "the feasible set). Certificate tie: the "
+              "the feasible set); ccAny_truth / ccXor_truth / stingy_truth — the same over constructor expressions (C04's build_truth "
+              "for the arguments): cc.Any(...) / cc.Xor(...) / StingyConfigurator(...) hold iff at least one / exactly one / every "
+              "argument holds; defaultPrios_spec / ccAny_default_helper / ccAny_default_prio — default_prios has one entry per "
+              "sub-proposition (its prio tag, else -1; flattened ids pairwise distinct), and a defaulted cc.Any holds its default "
+              "item next to ONE helper tagged -2 that is true exactly when a non-default alternative is selected. Certificate tie: the "
               "Lean driver evaluates the certificate on every objective vector the real select() hands to the solver, with "
               "levels = user priority magnitudes above default magnitude 2 (non-default branch) above default magnitude 1. "
               "Equality ties: structure after the default restructuring (cc_build), default_prios, and the objective vector "
@@ -226,14 +230,21 @@ CHECKS = {
               "(every constructor expression over the plog classes, RTExpr, builds a model of the fragment: closure of the "
               "fragment under negate plus the shape each constructor produces); ccXor_items_roundtrip / ccAny_items_roundtrip "
               "— a defaulted cc.Xor / cc.Any over items, through the configurator's class map, is read back as the same class "
-              "over the same items with the same default and evaluates identically; defaults_kept — whenever the configurator's class map "
+              "over the same items with the same default and evaluates identically (and stays Good); all theorems of the file are "
+              "stated for both class maps (cfg: plog's and the configurator's, which reads every Xor as cc.Xor); "
+              "configurator_roundtrip — StingyConfigurator(*rules) is written as a StingyConfigurator node, read back as one, and "
+              "holds on the same in-bounds assignments, for rules that are constructor expressions over the plog classes and "
+              "defaulted cc.Xor / cc.Any whose alternatives are again such expressions, nested arbitrarily (CcXorRule / CcAnyRule are "
+              "members of the fragment: fragN_mkCcXor_items, fragN_mkCcAny_items, rtn_ccXor, rtn_ccAny on ccXor_roundtrip_gen / "
+              "ccAny_roundtrip_gen; build_untagged: no constructor tags what it returns; e.g. a defaulted choice below an Imply "
+              "below the configurator, a choice below a choice); defaults_kept — whenever the configurator's class map "
               "reads back what a cc.Any / cc.Xor node wrote, the model it builds carries the same default; evaluation and "
               "default priorities of the configurator classes are tied by correspondence + oracle only; "
               "id_written_iff — for every class an explicitly given id is written and a generated one is not. Tie: to_json "
               "(through json.dumps/loads) and from_json compared with the model for every class incl. configurators; oracle: "
               "leaves and bounds, evaluation on assignments, explicit ids kept, no id emitted for generated ones, defaults and "
               "default priorities on named ids."),
-        note="PARTIAL at the theorem level: XNor, Imply, Not and the configurator classes are covered by the correspondence and the oracle, not by a theorem. Findings F16a-F16e were found by this check and repaired (five fix: commits). KNOWN FINDING F16f (not repaired, known_findings.json): siblings that differ only in the sign argument as passed get different generated ids but equal JSON, collapse after the round trip and change the value of an enclosing All — found while extending the theorem to All; the check prints KNOWN-FINDING for it and still reports every other round-trip failure.",
+        note="PARTIAL at the theorem level: default priorities and the polyhedron after the round trip are covered by the correspondence and the oracle, not by a theorem; the theorems keep the hypotheses DistinctRT (All / StingyConfigurator, fails exactly on F16f) and two inequalities of generated ids (Imply / XNor). Findings F16a-F16e were found by this check and repaired (five fix: commits). KNOWN FINDING F16f (not repaired, known_findings.json): siblings that differ only in the sign argument as passed get different generated ids but equal JSON, collapse after the round trip and change the value of an enclosing All — found while extending the theorem to All; the check prints KNOWN-FINDING for it and still reports every other round-trip failure.",
         technique="Lean 4 theorem (mutual induction over the fragment) + differential correspondence (both directions) + round-trip oracle",
         ref="§4 C16"),
     "C17": dict(
